@@ -15,6 +15,10 @@ CoverInit == c \in CaseSpace /\ pc = "gen" /\ idx = 1 /\ m = M0(c.o) /\ s = Blan
 CoverNext == pc = "gen" /\ PrintT(<<"TR", ToJson(CaseOut(c))>>) /\ pc' = "done" /\ UNCHANGED <<c, idx, m, s, out>>
 CoverSpec == CoverInit /\ [][CoverNext]_vars
 
+\* ---- header forms x families (FormCases of P2Bin_MC): every case, replayed
+FormCoverInit == c \in FormCases /\ pc = "gen" /\ idx = 1 /\ m = M0(c.o) /\ s = Blank /\ out = NoOut
+FormCoverSpec == FormCoverInit /\ [][CoverNext]_vars
+
 SimDefault == [rs |-> -1, re |-> -1, fill |-> 255, lane |-> "ALL", hdr |-> 0, e |-> -1, sum |-> FALSE,
                fops |-> <<>>, seg |-> 1]
 \* ---- filter operations (FilterList.tla): one fixed file with a record of each of the families a b c d and an
@@ -39,9 +43,17 @@ SimFOps == {<<FA(<<81>>)>>, <<FA(<<97>>)>>, <<FA(<<81, 112>>)>>, <<FA(<<1>>)>>, 
             <<FEA(<<97, 81>>), FEC(<<97>>), FA(<<112>>)>>, <<FA(<<81, 97>>), FC(<<81, 97>>)>>, <<FA(<<97, 112, 81>>), FC(<<97>>), FA(<<97>>)>>}
 SimStarts == 0..9 \cup {12, 15, 16, 17, 20, 24, 31, 32, 33, 40}
 SimCS == {<<81, 1>>, <<97, 1>>, <<81, 2>>, <<112, 1>>}
+\* HEADER FORMS: short-header records (<<cpu, 1, TRUE>>) of the families whose implied CODE granularity is G -- 81, 97
+\* (default 1), 112 (2), 59 AVR and 26, 29 PDK (2 in CODE, 1 elsewhere), 118 (4) -- and long-header DATA records of the
+\* AVR / PDK families, mixed in any order with the long-header shapes above, in any of the input files
+SimShortCpus == {81, 97, 112, 59, 26, 29, 118}
+SimForms(G) == {sh \in [k : {"D"}, start : {0, 2, 5, 8, 16, 17}, units : {1, 2, 4}, gran : {G},
+                         cs : {<<f, 1, TRUE>> : f \in SimShortCpus}] : CFB!ImplicitGran(sh.cs[1], SegCode) = G}
+               \cup [k : {"D"}, start : {0, 2, 5, 8, 16, 17}, units : {1, 2, 4}, gran : {1}, cs : {<<59, 2>>, <<29, 2>>}]
 SimShapes(G) == {sh \in [k : {"D"}, start : SimStarts, units : {0, 1, 2, 4, 8}, gran : {1, 2, 4}, cs : SimCS] :
                     sh.cs[2] = 1 => sh.gran = G}
                 \cup [k : {"E"}, addr : {4660, 74565}]
+                \cup SimForms(G)
 \* lower bounds of every phase of the lane period (1, 2, 3 mod 4) with upper bounds that make whole periods
 SimLo == {-1, 0, 4, 8, 12, 16, 20, 24, 32, 1, 2, 6, 3, 5, 9, 13, 17, 18}
 SimHi == {-1, 3, 7, 11, 15, 19, 23, 31, 39, 47, 5, 12, 8, 10, 14, 16, 20, 21, 22, 33}
